@@ -13,6 +13,9 @@
 //!      cleanly and after a partial write) and the workload re-run with the process alive;
 //!      every call boundary of that run is again a crash position; thorough: pairs of failures.
 //!
+//!   4. check `interleaved` (inter.rs): one flush and one compaction as concurrent tasks, every
+//!      interleaving of their store calls, every boundary a crash position.
+//!
 //! Oracle per crash image: `RecoveryManager::recover()` succeeds; every object the manifest
 //! names exists and passes open+validate; the folded recovered state contains (merge order)
 //! every update of every flush that had returned Ok. Oracle per failure run: after a failed
@@ -20,6 +23,7 @@
 //! succeeds) every accepted update that was not abandoned by a restart is recovered.
 
 mod fs;
+mod inter;
 mod model;
 mod store;
 mod wb;
@@ -76,6 +80,10 @@ struct Workload {
     max_deltas: u8,
     /// backpressure threshold of 140 estimated bytes (two buffered updates) instead of 16 MiB
     small_backpressure: bool,
+    /// `std::io::ErrorKind` carried by every injected failure of this workload (index into
+    /// `store::ERROR_KINDS`; 0 = Other). The code under test branches on the kind in places.
+    #[serde(default)]
+    err_kind: u8,
 }
 
 const EPOCH_MS: u64 = 1_790_000_000_000;
@@ -260,6 +268,7 @@ fn run_from(
 ) -> RunOut {
     let store = TraceObjectStore::from_image(initial);
     store.set_faults(faults);
+    store.set_error_kind(w.err_kind);
     let arc = Arc::new(store.clone());
     let mut out = RunOut {
         store: store.clone(),
@@ -903,6 +912,7 @@ fn check_workload(w: &Workload, ctx: &mut CaseCtx<'_>) -> Result<(), String> {
         Clock::Production(_) => ctx.label("clock:production"),
         Clock::Simulated(_) => ctx.label("clock:simulated"),
     }
+    ctx.label(&format!("fault_kind:{}", error_kind(w.err_kind).1));
     if ok_flushes >= 2 {
         // NT: with >= 2 successful flushes the enumeration below necessarily contains crash
         // and fault positions between a segment put and its manifest rename (and inside
@@ -1108,9 +1118,12 @@ fn workload(max_ops: usize) -> impl Strategy<Value = Workload> {
         2u8..5,
         prop_oneof![1 => Just(200u8), 1 => 1u8..4],
         prop_oneof![5 => Just(false), 1 => Just(true)],
+        // kind of the injected errors: Other (what the in-tree fault injector uses) or one of
+        // the other kinds a real store reports (timed out, interrupted, connection reset, …)
+        prop_oneof![3 => Just(0u8), 5 => 1u8..(ERROR_KINDS.len() as u8)],
     )
         .prop_map(
-            |(ops, min_seg, max_seg, small_target, clock, ttl_ms, max_segments, max_deltas, small_backpressure)| Workload {
+            |(ops, min_seg, max_seg, small_target, clock, ttl_ms, max_segments, max_deltas, small_backpressure, err_kind)| Workload {
                 ops,
                 min_seg,
                 max_seg,
@@ -1120,6 +1133,7 @@ fn workload(max_ops: usize) -> impl Strategy<Value = Workload> {
                 max_segments,
                 max_deltas,
                 small_backpressure,
+                err_kind,
             },
         )
 }
@@ -1148,6 +1162,7 @@ fn plain_workload(ops: Vec<Op>) -> Workload {
         max_segments: 2,
         max_deltas: 200,
         small_backpressure: false,
+        err_kind: 0,
     }
 }
 
@@ -1216,13 +1231,16 @@ fn main() {
          (d) thorough: every pair of failures; every get additionally returns once a corrupted (one byte ^0xFF at the middle) and once a truncated (half) object with the stored object intact. \
          write_buffer: generated push/flush sequences on a shared Arc<WriteBuffer> where 0..3 pushes arrive while flush() is suspended in front of its put; every flush's put succeeding / failing / failing after half the object (thorough: pairs). \
          non-trivial = the fault-free run has >= 2 successful flushes (so positions between a segment put and the manifest rename, \
-         and inside compaction when it ran, are enumerated), distinct by (store-call sequence, number of updates); write_buffer: some flush failed while updates had been pushed during its store call, distinct by the op list",
+         and inside compaction when it ran, are enumerated), distinct by (store-call sequence, number of updates); write_buffer: some flush failed while updates had been pushed during its store call, distinct by the op list; \
+         interleaved: after a generated sequential history, flush() of a generated batch of 1-3 updates || Compactor::compact() as two tasks preempted at store calls, every interleaving; non-trivial = the compaction gets as far as publishing a manifest and some schedule places that publication between the flush's temp put and its rename, distinct by (store-call sequence of the first schedule, batch size). \
+         Injected failures carry one generated ErrorKind per workload (Other 3/8, else one of 8 other kinds)",
         &args,
     );
     s.assume("fault model: a store call completes, or fails with an error (a put possibly after storing a prefix of its payload), or the process dies during it (a put leaves a prefix under its key — also over an existing object; rename and delete are atomic). A put that RETURNS Ok has stored all its bytes: 'short write reported as success' (modelled by the in-tree SimulatedObjectStore) is outside the domain");
     s.assume("third outcome per call: the operation TAKES EFFECT and still reports an error (timeout after commit): put = object fully stored + error; delete = object gone + error; rename = destination written, source still present + error (copy-then-delete as in the in-tree S3 store with the delete failing)");
     s.assume("fs_conformance / fs_workloads run on the real LocalFsObjectStore in scratch directories under <VERIF_ROOT>/.work/c12-fs (created and removed per case); InMemoryObjectStore is the reference semantics for the differential check; object timestamps are not compared");
-    s.assume("injected errors are ErrorKind::Other (as SimulatedObjectStore's); a transient NotFound on the manifest (which load_or_create treats as 'no manifest yet') is not injected");
+    s.assume("injected errors carry one generated ErrorKind per workload: Other (as SimulatedObjectStore's), TimedOut, Interrupted, ConnectionReset, PermissionDenied, UnexpectedEof, WouldBlock, AlreadyExists or InvalidData. NotFound is never INJECTED: for this API it is an answer ('no such object') that load_or_create and compact() are documented to act on, so a store giving it for an existing object would be lying rather than failing; truthful NotFound answers (rename of a temp object the other writer has moved away) occur in the `interleaved` check");
+    s.assume("interleaved: the persistence owner and the compactor are separate tasks on one prefix (integration.rs::start_workers), each store call is atomic, and a task is preempted only at store calls; one flush and one compact() overlap, a failed flush is retried sequentially afterwards. Discrepancies that follow from the two writers' unsynchronised read-modify-write of the manifest are C13's open finding KF-C13-04 and are attributed to it only under the narrow rule in the check's description");
     s.assume("tombstone garbage collection is C13's subject: a confirmed LWW update may be absent from the recovered state iff a compaction had started and a confirmed tombstone of the same key with a stamp >= the update's is droppable by the implementation's rule (stamp.time < compactor_now_ms - ttl_ms); under the simulated clock that is accepted unless a client-visible value of the key came back (then KF-C13-03), under the production-like clock it is counted under KF-C13-02");
     s.assume("the Checkpoint op snapshots what a node recovered from the current store would hold (computed by the harness on a copy of the image) and covers every segment the manifest lists; each checkpoint object gets its own key (production keys them by wall-clock ms)");
     s.assume("recovered state = fold of RecoveredState as ReplicatedShardedState::apply_recovered_state does it (checkpoint values, then merge per delta in order); containment = merging the update changes nothing in the peer view (vcore::proj, outer stamp's replica id masked)");
@@ -1304,6 +1322,22 @@ fn main() {
         "workloads (push / flush / compact / reopen, <= 14 ops) on StreamingPersistence + Compactor over LocalFsObjectStore behind a fault layer: fault-free, then every call failing once (without effect; puts also half-written; puts, renames, deletes also after the effect); after every op the directory must recover through a plain LocalFs store, the manifest must name only valid objects, confirmed updates must be there",
     );
     s.run_cases("fs_workloads", s.scale(100, 10_000), || workload(14), fs::check_fs_workload);
+    s.describe_check(
+        "interleaved",
+        "flush() of a generated batch and Compactor::compact() (own ManifestManager, shared temp key, as integration.rs wires them) as two hand-polled tasks over the gated store, after a generated sequential history: EVERY interleaving of their store calls, then a closing flush; every call boundary of every schedule is a crash position (same image oracle as `workloads`); pending_count after a failed flush. Truthful store: the only errors are genuine answers such as NotFound for a rename whose source the other writer renamed away. A discrepancy is attributed to the open KF-C13-04 only if no operation carried on / returned Ok after one of its own put/rename calls failed AND a stale-snapshot publication, a foreign temp object renamed into place or a segment key written by both writers precedes the crash position",
+    );
+    s.run_cases(
+        "interleaved",
+        s.scale(60, 6_000),
+        || {
+            (workload(12), proptest::collection::vec(delta_spec(), 1..4)).prop_map(|(w, batch)| inter::InterCase {
+                w,
+                batch,
+                schedule: None,
+            })
+        },
+        inter::check_inter,
+    );
     fs::cleanup_root();
     s.finish();
 }
